@@ -4,6 +4,7 @@ import (
 	"context"
 	"fmt"
 	"net/http"
+	"strings"
 
 	"github.com/rs/zerolog/log"
 	"github.com/semafind/semadb/httpapi/utils"
@@ -28,6 +29,14 @@ func AppHeaderMiddleware(userPlans map[string]models.UserPlan, next http.Handler
 		}
 		if appHeaders.UserId == "" || appHeaders.PlanId == "" {
 			utils.Encode(w, http.StatusBadRequest, map[string]string{"error": "missing X-User-Id or X-Plan-Id headers"})
+			return
+		}
+		// The user id is used verbatim as a directory name under userCollections
+		// and as the prefix of node database keys. It must therefore be a single
+		// plain path segment: "." and ".." would resolve to another user's (or
+		// every user's) directory and a separator would break the key namespace.
+		if appHeaders.UserId == "." || appHeaders.UserId == ".." || strings.ContainsAny(appHeaders.UserId, `/\`) {
+			utils.Encode(w, http.StatusBadRequest, map[string]string{"error": "invalid X-User-Id header"})
 			return
 		}
 		log.Debug().Interface("appHeaders", appHeaders).Msg("AppHeaderMiddleware")
